@@ -560,6 +560,21 @@ type env struct {
 	abortCh chan struct{}
 	keyCtr  atomic.Uint64
 	wit     map[string]any
+	start   time.Time
+}
+
+// stallLimit: a 5 ms sleeper waking up this late means the process (or the
+// whole machine: VM pause, clock jump) stood still; tongo's own 3 s / 10 s
+// timers then fire for reasons the server did not cause, and no wall-clock
+// verdict about the scenario is sound.
+const stallLimit = time.Second
+
+// worstSince waits a moment (after a stall the probe goroutine may not have
+// run yet when the caller notices a timeout) and returns the worst lateness
+// since t.
+func (e *env) worstSince(t time.Time) time.Duration {
+	time.Sleep(1500 * time.Millisecond)
+	return e.pr.worst(t, time.Now())
 }
 
 func errClass(err error) string {
@@ -729,6 +744,14 @@ func (e *env) watchdog() {
 		}
 		e.mu.Unlock()
 		if stuck != nil {
+			if late := e.worstSince(stuck.t0); late > lateLimit {
+				e.w.Inconclusive("watchdog fired on a stalled machine")
+				e.abort()
+				return
+			}
+			if stuck.done.Load() {
+				continue
+			}
 			dump := dumpStacks()
 			frames := parkedFrames(dump, "liteclient.(*Client).Request")
 			e.w.Violation("call-parked@"+strings.Join(frames, "+"), e.witness(map[string]any{"phase": stuck.phase, "waited_s": now.Sub(stuck.t0).Seconds(),
@@ -747,6 +770,16 @@ func (e *env) isOK() (ok bool, returned bool) {
 	case v := <-ch:
 		return v, true
 	case <-time.After(20 * time.Second):
+		if late := e.worstSince(time.Now().Add(-25 * time.Second)); late > lateLimit {
+			e.w.Inconclusive("IsOK watchdog fired on a stalled machine")
+			e.abort()
+			return false, false
+		}
+		select {
+		case v := <-ch:
+			return v, true
+		default:
+		}
 		dump := dumpStacks()
 		e.w.Violation("IsOK-parked@"+strings.Join(parkedFrames(dump, "liteclient.(*Client).IsOK"), "+"), e.witness(map[string]any{"tongo_goroutines": tongoStacks(dump)}))
 		e.abort()
@@ -841,6 +874,10 @@ func (e *env) judge(mustSucceed map[string]bool) {
 	for _, m := range st.malformed {
 		e.w.Violation("malformed-on-the-wire@"+mon.PanicClass(strings.SplitN(m, ":", 2)[0]), e.witness(map[string]any{"what": m}))
 	}
+	stalled := e.pr.worst(e.start, time.Now()) > stallLimit
+	if stalled {
+		e.w.Inconclusive("process stalled for more than 1 s during the scenario; wall-clock verdicts dropped")
+	}
 	sampled := false
 	for _, c := range calls {
 		if !c.done.Load() {
@@ -908,7 +945,7 @@ func (e *env) judge(mustSucceed map[string]bool) {
 			e.w.Count("calls_error:"+c.errCls, 1)
 		}
 		// (3) deadline
-		if el := c.t1.Sub(c.t0); el > c.timeout+slack {
+		if el := c.t1.Sub(c.t0); el > c.timeout+slack && !stalled {
 			if late := e.pr.worst(c.t0, c.t1); late > lateLimit {
 				e.w.Inconclusive("deadline overrun on a loaded machine")
 			} else {
@@ -916,7 +953,7 @@ func (e *env) judge(mustSucceed map[string]bool) {
 			}
 		}
 		// (2) fault-free phases: every call succeeds
-		if !c.ok && mustSucceed[c.phase] {
+		if !c.ok && mustSucceed[c.phase] && !stalled {
 			late := e.pr.worst(c.t0, c.t1)
 			answeredInTime := rec != nil && len(rec.tSent) > 0 && rec.tSent[0].Sub(c.t0) < c.timeout-slack
 			switch {
@@ -1118,7 +1155,14 @@ func (rc *recovery) await(tClose, tOK time.Time, class string, sessionsBefore in
 		rc.halt()
 		return false
 	case <-time.After(progressT - time.Since(tOK)):
-		late := e.pr.worst(tClose, time.Now())
+		late := e.worstSince(tClose)
+		select {
+		case <-rc.recovered: // recovered during the grace period; the bound is not meant to be that sharp
+			rc.halt()
+			e.waitOrAbort(&rc.wg)
+			return !e.aborted.Load()
+		default:
+		}
 		dump := dumpStacks()
 		rc.halt()
 		if late > lateLimit {
@@ -1399,7 +1443,10 @@ func scenarioGrowth(e *env) {
 	e.w.Eval(fmt.Sprintf("growth/%d/%d/%d", e.sc.Idx, g, workers))
 	e.w.Seen("goroutines_in_tongo_after_batches", fmt.Sprintf("w=%d: %d -> %d", workers, s1, s2))
 	e.w.Count("growth_comparisons", 1)
-	if s2 > s1 {
+	if s2 > s1 && e.pr.worst(e.start, time.Now()) > stallLimit {
+		// a stall makes tongo's silence timer reconnect; goroutines of the old connection are another matter
+		e.w.Inconclusive("goroutine comparison after a process stall")
+	} else if s2 > s1 {
 		e.w.Violation("goroutine-growth@"+growthSite(m1, m2), e.witness(map[string]any{"after_first_batch": m1, "after_10x_more": m2, "all_goroutines": []int{tot1, tot2}}))
 	}
 	e.judge(map[string]bool{"batch-1": true, "batch-2": true})
@@ -1435,7 +1482,7 @@ func runScenario(w *mon.Worker) {
 	quietTongo()
 	rng := w.Rng(sc.Kind, sc.Idx)
 	e := &env{w: w, sc: sc, rng: rng, pr: startProbe(), active: map[*call]struct{}{}, abortCh: make(chan struct{}),
-		wit: map[string]any{"scenario": sc.Kind, "index": sc.Idx, "seed": w.Seed}}
+		wit: map[string]any{"scenario": sc.Kind, "index": sc.Idx, "seed": w.Seed}, start: time.Now()}
 	e.id = adnl.NewIdentity(rng.Bytes(32))
 	e.hk = installHooks(rng.Fork("hooks", 0))
 	e.wit["hook_yield_1_in"], e.wit["hook_sleep_1_in"] = e.hk.yieldP, e.hk.sleepP
